@@ -13,6 +13,7 @@ import (
 	topoapi "github.com/onosproject/onos-api/go/onos/topo"
 	controllerutils "github.com/onosproject/onos-config/pkg/controller/utils"
 	proposalstore "github.com/onosproject/onos-config/pkg/store/v2/proposal"
+	"github.com/onosproject/onos-config/pkg/utils"
 	"github.com/onosproject/onos-config/pkg/utils/v2/tree"
 	utilsv2 "github.com/onosproject/onos-config/pkg/utils/v2/values"
 	"github.com/openconfig/gnmi/proto/gnmi_ext"
@@ -268,10 +269,18 @@ func (r *Reconciler) reconcileValidate(ctx context.Context, proposal *configapi.
 				}
 				if configValue, ok := config.Values[path]; ok {
 					rollbackValues[path] = configValue
-				} else {
+				} else if !changeValue.Deleted {
 					rollbackValues[path] = &configapi.PathValue{
 						Path:    path,
 						Deleted: true,
+					}
+				}
+				// A delete also removes everything beneath its path: rolling it back has to bring those values back too
+				if changeValue.Deleted {
+					for childPath, childValue := range config.Values {
+						if !childValue.Deleted && utils.IsPathBelow(childPath, path) {
+							rollbackValues[childPath] = childValue
+						}
 					}
 				}
 			}
